@@ -85,7 +85,7 @@ def _effects(name, stmts):
     return variants
 
 
-def generate(repo_root='/repo'):
+def generate(repo_root=os.environ.get('VERIF_REPO', '/repo')):
     tree = ast.parse(open(os.path.join(repo_root, 'pyroll/core/unit/unit.py')).read())
     unit = next((n for n in tree.body if isinstance(n, ast.ClassDef) and n.name == 'Unit'), None)
     lst = next((n for n in (unit.body if unit else []) if isinstance(n, ast.ClassDef) and n.name == '_SubUnitsList'), None)
